@@ -321,6 +321,15 @@ impl Driver {
                         if let Some((n, h)) = lost.first() {
                             self.fail("C04", "queue-with-positions-vanished", format!("after {} a queue (name {} B) that had handed out positions up to {} and was never deleted no longer exists: its next append would start again from 0", op.short(), n.len(), h));
                         }
+                        // ... and one that is still there may not have moved backwards
+                        let regressed: Vec<(String, u64, u64)> = self.model.queues.iter().filter_map(|(n, mq)| {
+                            let h = *self.hw.get(&(n.clone(), mq.incarnation))?;
+                            let next = obs.queues.get(n)?.last_position.map(|p| p + 1).unwrap_or(0);
+                            if next <= h { Some((n.clone(), h, next)) } else { None }
+                        }).collect();
+                        if let Some((n, h, next)) = regressed.first() {
+                            self.fail("C04", "next-regressed-after-restart", format!("after {} a queue (name {} B) that had handed out positions up to {} has next position {}: positions would be handed out again", op.short(), n.len(), h, next));
+                        }
                     }
                     self.model.rebase(&obs);
                     self.stopped = false;
